@@ -1694,4 +1694,121 @@ example : normalizeAddrs [[49, 46, 50, 46, 51, 46, 52], [91, 58, 58, 49, 93, 58,
 
 end others
 
+
+/-! ## The commands never hand zero decoders to the round-robin combiner (round m) -/
+
+section commands
+open Vegeta.Model
+
+/-- `decoder(files)`: a successful assembly has exactly one decoder per file -/
+theorem command_decoders_one_per_file {δ : Type} (detect : Bytes → Option δ) :
+    ∀ (fs : List Bytes) (ds : List δ), assemble detect fs = some ds → ds.length = fs.length := by
+  intro fs
+  induction fs with
+  | nil => intro ds h; simp [assemble] at h; subst h; rfl
+  | cons f t ih =>
+    intro ds h
+    unfold assemble at h
+    split at h
+    · simp at h
+    · split at h
+      · simp at h
+      · rename_i ds' hds
+        simp only [Option.some.injEq] at h
+        subst h
+        simp [ih ds' hds]
+
+/-- a file whose encoding is not detected (e.g. an input without a single byte) is never left out: the
+assembly fails as a whole -/
+theorem command_undetected_file_fails {δ : Type} (detect : Bytes → Option δ) (pre post : List Bytes) (f : Bytes)
+    (hf : detect f = none) : assemble detect (pre ++ f :: post) = none := by
+  induction pre with
+  | nil => simp [assemble, hf]
+  | cons g t ih =>
+    simp only [List.cons_append]
+    unfold assemble
+    split
+    · rfl
+    · rw [ih]
+
+/-- **Whatever the command line and whatever the inputs hold, a command that gets a decoder at all gets
+one built from at least one input decoder** (no file argument means `stdin`; every file contributes
+one decoder or fails the command). -/
+theorem command_never_zero_decoders {δ : Type} (detect : Bytes → Option δ) (args : List Bytes) (ds : List δ)
+    (h : commandDecoders detect args = some ds) : ds ≠ [] ∧ ds.length = (commandFiles args).length := by
+  have hl := command_decoders_one_per_file detect _ _ h
+  refine ⟨?_, hl⟩
+  intro hnil
+  subst hnil
+  unfold commandFiles at hl
+  split at hl
+  · simp at hl
+  · rename_i hne
+    cases args with
+    | nil => simp at hne
+    | cons a t => simp at hl
+
+private theorem aux_rrLoop_last {α} : ∀ (fuel : Nat) (decs : List (RoundRobin.Dec α)) (seq e : Nat),
+    (RoundRobin.rrLoop fuel decs seq (some e)).1 ≠ .nothing := by
+  intro fuel
+  induction fuel with
+  | zero => intro decs seq e; simp [RoundRobin.rrLoop]
+  | succ n ih =>
+    intro decs seq e
+    unfold RoundRobin.rrLoop
+    simp only
+    split
+    · simp
+    · exact ih _ _ _
+
+/-- **Every call of the combined decoder over at least one decoder returns a record or an error** — the
+"`nil` although nothing was decoded" answer (`Step.nothing`, which a read loop would repeat for ever)
+exists with zero decoders only (`round_robin_zero_decoders`). -/
+theorem round_robin_call_value_or_error {α} (s : RoundRobin.RR α) (hne : s.decs ≠ []) :
+    (RoundRobin.rrDecode s).1 ≠ .nothing := by
+  unfold RoundRobin.rrDecode
+  split
+  · split <;> simp
+  · rename_i hnot
+    simp only
+    cases hd : s.decs with
+    | nil => exact absurd hd hne
+    | cons d t =>
+      simp only [List.length_cons]
+      unfold RoundRobin.rrLoop
+      simp only
+      split
+      · simp
+      · exact aux_rrLoop_last _ _ _ _
+
+/-- the two together: the decoder a command reads from answers every call with a record or an error -/
+theorem command_decode_value_or_error {α} (detect : Bytes → Option (RoundRobin.Dec α)) (args : List Bytes)
+    (ds : List (RoundRobin.Dec α)) (h : commandDecoders detect args = some ds) (seq : Nat) :
+    (RoundRobin.rrDecode { decs := ds, seq := seq }).1 ≠ .nothing :=
+  round_robin_call_value_or_error _ (command_never_zero_decoders detect args ds h).1
+
+/-- and the excluded situation, for contrast: with zero decoders every call answers `nil` without a record -/
+theorem round_robin_zero_decoders_nothing {α} (seq : Nat) :
+    (RoundRobin.rrDecode ({ decs := [], seq := seq } : RoundRobin.RR α)).1 = .nothing := by
+  simp [RoundRobin.rrDecode, RoundRobin.rrLoop]
+
+/-- source facts: the loop of `decoder(files)` has exactly these statements (open — fail — detect — fail —
+append — append), no `continue` / `break` / `goto` anywhere in the function, it returns the round-robin
+combination of `decs`, and each of the three commands replaces an empty argument list by `stdin` -/
+theorem facts_command_decoder_assembly :
+    Vegeta.Extracted.c16FileDecoderLoop = [ofAscii "rc, err := file(f, false)", ofAscii "if err != nil return",
+      ofAscii "dec := vegeta.DecoderFor(rc)", ofAscii "if dec == nil return", ofAscii "decs = append(decs, dec)",
+      ofAscii "closer = append(closer, rc)"] ∧
+    Vegeta.Extracted.c16FileDecoderJumps = 0 ∧
+    Vegeta.Extracted.c16FileDecoderReturns = ofAscii "vegeta.NewRoundRobinDecoder(decs...)" ∧
+    Vegeta.Extracted.c16CommandsDefaultInput = [ofAscii "files = append(files, \"stdin\")", ofAscii "files = append(files, \"stdin\")",
+      ofAscii "files = append(files, \"stdin\")"] := by decide
+
+-- non-vacuity: an empty first input fails the command; two detected inputs give two decoders; no argument reads stdin
+example : commandDecoders (fun f => if f.isEmpty then none else some f) [[], [49]] = none := by decide
+example : commandDecoders (fun f => if f.isEmpty then none else some f) [[49], [50]] = some [[49], [50]] := by decide
+example : commandDecoders (fun f => some f) [] = some [stdinWord] := by decide
+
+end commands
+
 end Vegeta.Props.C16
